@@ -61,6 +61,13 @@ func (env *rEnv) typeOf(n *rNode) types.Type {
 				}
 			}
 		}
+		if n.Text == "callret" && len(n.Args) == 2 && n.Args[0].Op == "str" {
+			if idx, ok := constIndex(env.eval(n.Args[1])); ok {
+				if fn := env.e.findByShort(n.Args[0].Text); fn != nil && idx < fn.Signature.Results().Len() {
+					return fn.Signature.Results().At(idx).Type()
+				}
+			}
+		}
 		if n.Text == "callarg" && len(n.Args) == 2 && n.Args[0].Op == "str" {
 			if idx, ok := constIndex(env.eval(n.Args[1])); ok {
 				if fn := env.e.findByShort(n.Args[0].Text); fn != nil && idx < len(fn.Params) {
@@ -189,6 +196,30 @@ func (env *rEnv) call(n *rNode) Value {
 			}
 		}
 		return sym(IntLit(-1))
+	case "updkey", "updval":
+		// key / value of the most recent update of a scalar map on this path
+		for i := len(env.post.trace) - 1; i >= 0; i-- {
+			if ev := env.post.trace[i]; ev.Kind == "mapupdate" && ev.Terms != nil {
+				if n.Text == "updkey" {
+					return sym(ev.Terms["k"])
+				}
+				return sym(ev.Terms["v"])
+			}
+		}
+		return env.fail("no map update on this path")
+	case "sprintfd":
+		// sprintfd("fmt with one %d", n): the string fmt.Sprintf produces (same encoding the executor uses)
+		if n.Args[0].Op == "str" {
+			t := argT(1)
+			format := n.Args[0].Text
+			var rep string
+			if c, ok := t.intConst(); ok {
+				rep = c.String()
+			} else {
+				rep = e.hole(t)
+			}
+			return sym(e.strLit(strings.Replace(format, "%d", rep, 1)))
+		}
 	case "callrecv":
 		// callrecv("Short"): the receiver struct as it was when the last modular call to that function was made
 		if n.Args[0].Op == "str" {
@@ -225,6 +256,25 @@ func (env *rEnv) call(n *rNode) Value {
 			}
 			return env.fail("no call to %s on this path", n.Args[0].Text)
 		}
+	case "cbret":
+		// cbret(i): i-th result of the most recent client callback invocation
+		if idx, ok := constIndex(env.eval(n.Args[0])); ok {
+			for i := len(env.post.trace) - 1; i >= 0; i-- {
+				if env.post.trace[i].Kind == "callback" {
+					switch r := env.post.trace[i].Extra.(type) {
+					case VTuple:
+						if idx < len(r.E) {
+							return r.E[idx]
+						}
+					case Value:
+						if idx == 0 && r != nil {
+							return r
+						}
+					}
+				}
+			}
+		}
+		return env.fail("no callback result on this path")
 	case "delivered":
 		// the argument of the most recent client callback invocation on this path
 		for i := len(env.post.trace) - 1; i >= 0; i-- {
